@@ -711,15 +711,16 @@ MANIFEST = {
             "kind, int/bool text conversions (std::to_string/stoi/strtoul semantics), and the scalar codec round trip load_scalar (emit_scalar "
             "s) = s for every scalar of the property's domain in block and flow context, against a model of yaml-cpp 0.7's emitter and loader "
             "for the emitted subset; the same statement is refuted for EmitScalar as it was before the repair commit (witness \" a\\n\"). "
-            "Tree round trip: full statement kept as a Definition, base layer (single scalar) proved, plus a vm_compute sweep of the model over a "
-            "generated family of 34782 small shapes (finite domain); the induction over collections is not mechanised - correspondence only. "
+            "Tree round trip: C18_tree_roundtrip proves load (emit t) = prune t for every tree of the domain (sorted maps, scalars and keys in "
+            "the scalar domain, keys < 256 bytes) by mutual induction over items: block sequences/maps with their indentation, flow style "
+            "from depth 3, long-key form for literal keys, empty containers, null entries pruned. "
             "All induction, no bounds. Every run re-ties the model to /repo: ~7000 (thorough ~75000) generated trees and 600 (6000) API "
             "histories are run through the extracted model and through the real code (ASan/UBSan build); bytes, trees, results are diffed "
             "and the property's oracles are evaluated on the implementation's observations.",
     "note": "No axioms (Print Assumptions: closed under the global context for all theorems). Trusted: Coq kernel (+vm_compute for the "
             "refutation witnesses); the model of yaml-cpp 0.7.0's emitter/loader in coq/Cfg/Yaml.v is a port from the upstream text fitted to "
             "probes (library source not in the sandbox) and is validated only by correspondence; ExtrOcamlBasic extraction and the OCaml/C++ "
-            "glue. Gaps: doubles (to_string(double)/stod) are checked on the implementation only; tree_roundtrip is partial (see text); "
+            "glue. Gaps: doubles (to_string(double)/stod) are checked on the implementation only; "
             "paths with empty components and list indices >= 2^32 are outside the theorems. Known findings reported on every run: Unicode "
             "noncharacters are replaced by U+FFFD by yaml-cpp's emitter; map keys whose escaped form exceeds 1024 bytes make the saved file "
             "unloadable.",
